@@ -1019,6 +1019,201 @@ theorem singleVia_error {c : Config α} {g : List α} (hf : c.fwd.AdjConsistent)
         exact Or.inr (Or.inr (svLoop_error T _ _ _ _ _ (fun p hp => mem_interQueue hp) hk'))
       · cases h
 
+/-! ### Yen's algorithm: what does hold -/
+
+section yen
+variable {cf : Config α} {sim : List Nat → List Nat → Except ErrKind Bool} {term : KspTerm}
+  {target k : Nat}
+
+/-- a spur turn only appends to `accepted` -/
+theorem yenSpur_accepted {prev : List (Branch α)} {st st' : YenState α} {i : Nat}
+    (h : yenSpur cf sim target prev st i = .ok st') : ∃ ext, st'.accepted = st.accepted ++ ext := by
+  unfold yenSpur at h
+  simp only at h
+  split at h
+  · cases h
+  · split at h
+    · cases h
+    · split at h
+      · cases h
+      · split at h
+        · cases h
+        · split at h
+          · cases h
+          · rename_i best' _
+            cases h
+            cases best' with
+            | none => exact ⟨[], by simp⟩
+            | some p => exact ⟨[p.1], rfl⟩
+
+theorem yenFor_accepted {prev : List (Branch α)} :
+    ∀ {is : List Nat} {st st' : YenState α}, yenFor cf sim target prev is st = .ok st' →
+      ∃ ext, st'.accepted = st.accepted ++ ext
+  | [], st, st', h => by cases h; exact ⟨[], by simp⟩
+  | i :: is, st, st', h => by
+    unfold yenFor at h
+    split at h
+    · cases h
+    · rename_i st1 h1
+      obtain ⟨e1, he1⟩ := yenSpur_accepted h1
+      obtain ⟨e2, he2⟩ := yenFor_accepted h
+      exact ⟨e1 ++ e2, by rw [he2, he1, List.append_assoc]⟩
+
+/-- whatever Yen's loop returns starts with the routes it was entered with -/
+theorem yenWhile_accepted {tree : Nat → Option (Branch α)} :
+    ∀ (fuel : Nat) (st : YenState α) (r : AlgResult α),
+      yenWhile cf sim term target k tree fuel st = .ok r →
+      ∃ ext, r.routes = st.accepted ++ ext
+  | 0, st, r, h => by cases h
+  | fuel + 1, st, r, h => by
+    unfold yenWhile at h
+    split at h
+    · split at h
+      · cases h; exact ⟨[], by simp⟩
+      · split at h
+        · cases h
+        · simp only at h
+          split at h
+          · split at h <;> cases h
+          · split at h
+            · cases h
+            · rename_i st' hfor
+              split at h
+              · cases h
+              · obtain ⟨e1, he1⟩ := yenFor_accepted hfor
+                obtain ⟨e2, he2⟩ := yenWhile_accepted fuel st' r h
+                exact ⟨e1 ++ e2, by rw [he2, he1]; simp⟩
+    · cases h; exact ⟨[], by simp⟩
+
+end yen
+
+/-- **Yen, first route**: a returned result starts with the route of the underlying search (and so
+holds at least one route) -/
+theorem yens_first_route {c : Config α} {sim : List Nat → List Nat → Except ErrKind Bool}
+    {term : KspTerm} {source target k : Nat} {scheds : List (List Nat)} {r : AlgResult α}
+    (h : yens c sim term source target k scheds = .ok r) :
+    ∃ fres first, runVertexOriented c.fwd.inst source (some target) (scheds.headD []) = .ok fres ∧
+      fres.route = some first ∧ r.routes.head? = some first := by
+  unfold yens at h
+  simp only at h
+  split at h
+  · cases h
+  · rename_i fres hfres
+    split at h
+    · rename_i hroute
+      -- `run_vertex_oriented` with a destination always returns a route
+      obtain ⟨_, route, hr, _⟩ := SearchRoute.runVertexOriented_some hfres
+      rw [hr] at hroute; cases hroute
+    · rename_i first hfirst
+      obtain ⟨ext, hext⟩ := yenWhile_accepted _ _ _ h
+      exact ⟨fres, first, hfres, hfirst, by rw [hext]; rfl⟩
+
+/-- **Yen, k ≤ 1**: exactly the underlying search's route, its tree, one iteration — for every
+network, similarity and criterion.  (For k = 0 that is one route more than asked for.) -/
+theorem yens_k_le_one {c : Config α} {sim : List Nat → List Nat → Except ErrKind Bool}
+    {term : KspTerm} {source target k : Nat} (hk : k ≤ 1) {scheds : List (List Nat)}
+    {fres : SearchResult α} {first : List (Branch α)}
+    (hrun : runVertexOriented c.fwd.inst source (some target) (scheds.headD []) = .ok fres)
+    (hfirst : fres.route = some first) :
+    yens c sim term source target k scheds =
+      .ok { trees := [fres.final.sol], routes := [first], iterations := 1 } := by
+  unfold yens
+  simp only [hrun, hfirst]
+  unfold yenWhile
+  have : ¬ (1 < k) := by omega
+  simp [this]
+
+/-- **Yen, shortest route of exactly two edges, k ≥ 2: the code does not return** — for every
+network, similarity function and termination criterion: `0..len - 2` is empty, nothing is pushed,
+and `while accepted.len() < k` starts every turn from the same state -/
+theorem yens_two_edge_route_diverges {c : Config α}
+    {sim : List Nat → List Nat → Except ErrKind Bool} {term : KspTerm} {source target k : Nat}
+    (hk : 2 ≤ k) {scheds : List (List Nat)} {fres : SearchResult α} {b1 b2 : Branch α}
+    (hrun : runVertexOriented c.fwd.inst source (some target) (scheds.headD []) = .ok fres)
+    (hfirst : fres.route = some [b1, b2]) :
+    yens c sim term source target k scheds = .diverges "no-progress" := by
+  unfold yens
+  simp only [hrun, hfirst]
+  unfold yenWhile
+  have h1 : (1 : Nat) < k := by omega
+  have hterm : term.terminate k 1 = false := by
+    cases hT : term.terminate k 1
+    · rfl
+    · have := terminate_length hT; omega
+  simp [h1, hterm, yenFor]
+
+/-- **Yen, shortest route of one edge, k ≥ 2: the code does not return** whenever the similarity
+function itself does not fail: `len - 2` wraps to about 2^64 turns, each of which searches from the
+destination to itself (an immediate empty result) and — under `AcceptAll` — pushes another copy of
+the route.  (Here: the first four turns succeed; none of the later ones differs from them.) -/
+theorem yens_one_edge_route_diverges {c : Config α}
+    {sim : List Nat → List Nat → Except ErrKind Bool} {term : KspTerm} {source target k : Nat}
+    (hk : 2 ≤ k) (hsim : ∀ a b, ∃ r, sim a b = .ok r) {scheds : List (List Nat)}
+    {fres : SearchResult α} {b : Branch α} {er : EdgeRec α}
+    (hrun : runVertexOriented c.fwd.inst source (some target) (scheds.headD []) = .ok fres)
+    (hfirst : fres.route = some [b]) (hedge : c.edges[b.edge]? = some er) (hdst : er.dst = target) :
+    yens c sim term source target k scheds = .diverges "underflow" := by
+  -- one spur turn from any state whose previous route is `[b]` succeeds
+  have hscan : ∀ (cand : List (Branch α)) (cost : α) (acc : List (List (Branch α)))
+      (best : Option (List (Branch α) × α)), ∃ best', yenScan sim cand cost acc best = .ok best' := by
+    intro cand cost acc
+    induction acc with
+    | nil => intro best; exact ⟨best, rfl⟩
+    | cons t rest ih =>
+      intro best
+      obtain ⟨r, hr⟩ := hsim (t.map (·.edge)) (cand.map (·.edge))
+      unfold yenScan
+      rw [hr]
+      cases r with
+      | true => simpa using ih best
+      | false =>
+        cases best with
+        | none => simpa using ih _
+        | some p =>
+          obtain ⟨bp, bc⟩ := p
+          simp only [Bool.false_eq_true, if_false]
+          split
+          · exact ih _
+          · exact ih _
+  have hspur : ∀ (st : YenState α) (i : Nat), ∃ st', yenSpur c.fwd sim target [b] st i = .ok st' := by
+    intro st i
+    unfold yenSpur
+    have hroot : ([b].take (i + 1)).getLast? = some b := by simp
+    have hedge' : c.fwd.edges[b.edge]? = some er := hedge
+    simp only [hroot, hedge', hdst]
+    obtain ⟨res, hres, hroute, _⟩ := SearchTree.runVertexOriented_source
+      ({ c.fwd with frontier := FrontierM.edgeCut (st.accepted.filterMap (fun p =>
+          if sameIds ([b].take (i + 1)) (p.take (i + 1)) then p[i + 1]?.map (·.edge) else none))
+          :: c.fwd.frontier } : Config α).inst target
+      (st.scheds.headD [])
+    rw [hres]
+    simp only [hroute]
+    obtain ⟨best', hb⟩ := hscan ([b].take (i + 1) ++ [])
+      (sumList (([b].take (i + 1) ++ []).map (fun (x : Branch α) => x.access + x.traversal)))
+      st.accepted st.best
+    rw [hb]
+    exact ⟨_, rfl⟩
+  have hfor : ∀ (is : List Nat) (st : YenState α), ∃ st', yenFor c.fwd sim target [b] is st = .ok st' := by
+    intro is
+    induction is with
+    | nil => intro st; exact ⟨st, rfl⟩
+    | cons i is ih =>
+      intro st
+      obtain ⟨st1, h1⟩ := hspur st i
+      obtain ⟨st2, h2⟩ := ih st1
+      exact ⟨st2, by unfold yenFor; rw [h1]; exact h2⟩
+  unfold yens
+  simp only [hrun, hfirst]
+  unfold yenWhile
+  have h1 : (1 : Nat) < k := by omega
+  have hterm : term.terminate k 1 = false := by
+    cases hT : term.terminate k 1
+    · rfl
+    · have := terminate_length hT; omega
+  obtain ⟨st', hst'⟩ := hfor [0, 1, 2, 3]
+    { accepted := [[b]], best := none, iterations := 1, scheds := scheds.tail }
+  simp [h1, hterm, hst']
+
 /-! ### concrete configurations over ℚ (non-vacuity and witnesses) -/
 
 namespace Example
@@ -1143,6 +1338,126 @@ theorem reversedPair_plain :
 theorem reversedPair_singleVia :
     idsOf (singleVia reversedPair (List.replicate 3 0) simAcceptAll .exact 0 2 2 [0, 1, 2] [2, 1] []) =
       .error .noPath := by
+  decide +kernel
+
+/-! #### Yen's algorithm on concrete networks (each is a corpus witness of the harness, where the
+real code shows the same behaviour; schedules are the ones the implementation took) -/
+
+/-- decidable observation of a k-shortest-paths outcome -/
+inductive Obs where
+  | routes (ids : List (List Nat))
+  | err (e : ErrKind)
+  | diverges (why : String)
+  deriving DecidableEq
+
+def obsOf : KspOutcome ℚ → Obs
+  | .ok r => .routes (r.routes.map (·.map (·.edge)))
+  | .err e => .err e
+  | .diverges why => .diverges why
+
+/-- the state vectors along every returned route -/
+def statesOf : KspOutcome ℚ → List (List (List ℚ))
+  | .ok r => r.routes.map (·.map (·.state))
+  | _ => []
+
+theorem ok_of_obsOf {o : KspOutcome ℚ} {l : List (List Nat)} (h : obsOf o = .routes l) :
+    ∃ r, o = .ok r ∧ r.routes.map (·.map (·.edge)) = l := by
+  cases o with
+  | ok r => simp only [obsOf, Obs.routes.injEq] at h; exact ⟨r, rfl, h⟩
+  | err e => cases h
+  | diverges w => cases h
+
+/-- "similar" = at least `n` common edges (a stand-in for a cosine threshold over ℚ) -/
+def shareAtLeast (n : Nat) : List Nat → List Nat → Except ErrKind Bool :=
+  fun a b => .ok (decide (n ≤ (a.filter (fun e => b.contains e)).length))
+
+/-- one-edge shortest route `0 -e0→ 1` (with a detour `0 → 2 → 1`) -/
+def oneEdge : Config ℚ :=
+  mk 3 [⟨0, 1, 1⟩, ⟨0, 2, 1⟩, ⟨2, 1, 1⟩] [[0, 1], [], [2]] [] []
+
+/-- `0 → 1 → 2 → 3`, nothing else -/
+def line3 : Config ℚ :=
+  mk 4 [⟨0, 1, 1⟩, ⟨1, 2, 1⟩, ⟨2, 3, 1⟩] [[0], [1], [2], []] [] []
+
+/-- `0 -e0→ 1 -e1→ 2 -e2→ 3` and the alternative `1 -e3→ 4 -e4→ 3` -/
+def alt3 (frontier : List (FrontierM ℚ)) : Config ℚ :=
+  mk 5 [⟨0, 1, 1⟩, ⟨1, 2, 1⟩, ⟨2, 3, 1⟩, ⟨1, 4, 2⟩, ⟨4, 3, 2⟩] [[0], [1, 3], [2], [], [4]] [] frontier
+
+/-- four-edge route `0 → 1 → 2 → 3 → 4`, alternatives `1 → 5 → 4` (lengths `a`) and `2 → 6 → 4` (`b`) -/
+def twoSpurs (a b : ℚ) : Config ℚ :=
+  mk 7 [⟨0, 1, 1⟩, ⟨1, 2, 1⟩, ⟨2, 3, 1⟩, ⟨3, 4, 1⟩, ⟨1, 5, a⟩, ⟨5, 4, a⟩, ⟨2, 6, b⟩, ⟨6, 4, b⟩]
+    [[0], [1, 4], [2, 6], [3], [], [5], [7]] [] []
+
+/-- `0 → 1 → 2 → 3` and, from 1, back through the origin: `1 -e3→ 0 -e4→ 4 -e5→ 3` -/
+def loopy : Config ℚ :=
+  mk 5 [⟨0, 1, 1⟩, ⟨1, 2, 1⟩, ⟨2, 3, 1⟩, ⟨1, 0, 1⟩, ⟨0, 4, 2⟩, ⟨4, 3, 2⟩]
+    [[0, 4], [1, 3], [2], [], [5]] [] []
+
+/-- S = [e0,e1,e2], [e0,e3,e4,e5], [e0,e6,e7], [e0,e3,e8,e9] between 0 and 9 -/
+def fan : Config ℚ :=
+  mk 10 [⟨0, 1, 1⟩, ⟨1, 2, 1⟩, ⟨2, 9, 1⟩, ⟨1, 3, 1⟩, ⟨3, 4, 1⟩, ⟨4, 9, 1⟩, ⟨1, 5, 2⟩, ⟨5, 9, 2⟩,
+         ⟨3, 6, 9 / 10⟩, ⟨6, 9, 9 / 10⟩]
+    [[0], [1, 3, 6], [2], [4, 8], [5], [7], [9], [], [], []] [] []
+
+/-- `0 ⇄ 1` -/
+def pair : Config ℚ := mk 2 [⟨0, 1, 1⟩, ⟨1, 0, 1⟩] [[0], [1]] [] []
+
+theorem yen_one_edge : obsOf (yens oneEdge simAcceptAll .exact 0 1 2 [[0, 1]]) = .diverges "underflow" := by
+  decide +kernel
+
+theorem yen_two_edge : obsOf (yens diamond simAcceptAll .exact 0 3 2 [[0, 1, 3]]) = .diverges "no-progress" := by
+  decide +kernel
+
+theorem yen_k0 : obsOf (yens diamond simAcceptAll .exact 0 3 0 [[0, 1, 3]]) = .routes [[0, 1]] := by
+  decide +kernel
+
+theorem yen_origin_is_destination :
+    idsOf (pair.runVertex 0 (some 0) []) = .ok [[]] ∧
+    obsOf (yens pair simAcceptAll .exact 0 0 2 [[]]) = .err .internal := by
+  decide +kernel
+
+theorem yen_spur_failure :
+    idsOf (line3.runVertex 0 (some 3) [0, 1, 2, 3]) = .ok [[0, 1, 2]] ∧
+    obsOf (yens line3 simAcceptAll .exact 0 3 2 [[0, 1, 2, 3], [1]]) = .err .noPath := by
+  decide +kernel
+
+theorem yen_state_not_accumulated :
+    obsOf (yens (alt3 []) simAcceptAll .exact 0 3 2 [[0, 1, 2, 4, 3], [1, 4, 3]]) =
+      .routes [[0, 1, 2], [0, 3, 4]] ∧
+    statesOf (yens (alt3 []) simAcceptAll .exact 0 3 2 [[0, 1, 2, 4, 3], [1, 4, 3]]) =
+      [[[1], [2], [3]], [[1], [2], [4]]] := by
+  decide +kernel
+
+theorem yen_duplicate :
+    obsOf (yens (twoSpurs 2 3) simAcceptAll .exact 0 4 2 [[0, 1, 2, 5, 3, 4], [1, 5, 4], [2, 6, 4]]) =
+      .routes [[0, 1, 2, 3], [0, 4, 5], [0, 4, 5]] := by
+  decide +kernel
+
+theorem yen_more_than_k :
+    obsOf (yens (twoSpurs 3 (3 / 2)) simAcceptAll .exact 0 4 2
+      [[0, 1, 2, 3, 6, 4], [1, 5, 4], [2, 6, 4]]) =
+      .routes [[0, 1, 2, 3], [0, 4, 5], [0, 1, 6, 7]] := by
+  decide +kernel
+
+theorem yen_loop :
+    obsOf (yens loopy simAcceptAll .exact 0 3 2 [[0, 1, 4, 2, 3], [1, 0, 4, 3]]) =
+      .routes [[0, 1, 2], [0, 3, 4, 5]] := by
+  decide +kernel
+
+theorem yen_similar :
+    obsOf (yens fan (shareAtLeast 2) .exact 0 9 3
+      [[0, 1, 2, 3, 6, 5, 4, 9], [1, 3, 6, 5, 4, 9], [1, 5, 9], [3, 4, 9]]) =
+      .routes [[0, 1, 2], [0, 3, 8, 9], [0, 6, 7], [0, 3, 4, 5]] := by
+  decide +kernel
+
+theorem yen_restricted_turn :
+    obsOf (yens (alt3 [.turnRestriction [(0, 3)]]) simAcceptAll .exact 0 3 2
+      [[0, 1, 2, 3], [1, 4, 3]]) = .routes [[0, 1, 2], [0, 3, 4]] := by
+  decide +kernel
+
+theorem yen_no_dissimilar_candidate :
+    obsOf (yens (alt3 []) (shareAtLeast 1) .exact 0 3 2 [[0, 1, 2, 4, 3], [1, 4, 3]]) =
+      .diverges "no-progress" := by
   decide +kernel
 
 end Example
